@@ -69,8 +69,13 @@ def run_head(case: Dict[str, Any]) -> CaseInfo:
     must_serve = size <= limit
     cfg = {"keep_alive_timeout": T_BIG, "h11_max_incomplete_size": limit}
 
+    second = bool(case.get("second"))  # the head is the second request of a keep-alive connection
+
     async def sc(env: Any) -> Any:
         conn = env.connect()
+        if second:
+            conn.send(b"GET /first HTTP/1.1\r\nHost: x\r\n\r\n")
+            await env.settle(5.0)
         await deliver(env, conn, data, case["seg"])
         await env.settle(20.0)
         conn.eof()
@@ -83,10 +88,16 @@ def run_head(case: Dict[str, Any]) -> CaseInfo:
         tag = {"backend": be, "limit": "h11_max_incomplete_size"}
         if conn.handler_exc is not None:
             raise Violation("handler_exception", repr(conn.handler_exc), **tag)
-        resps, _, err = parse_responses(conn.received(), ["GET"], conn.server_gone)
+        resps, _, err = parse_responses(conn.received(), ["GET", "GET"], conn.server_gone)
         if err:
             raise Violation("malformed_response", err, **tag)
-        served = bool(obs.instances)
+        if second:
+            if not resps or resps[0].status != 200 or not any(
+                    i.scope.get("path") == "/first" for i in obs.instances):
+                raise Violation("within_limit_rejected", "the ordinary first request of the "
+                                f"connection: {[r.status for r in resps]}", **tag)
+            resps = resps[1:]
+        served = any(i.scope.get("path") == "/h" for i in obs.instances)
         if must_serve and (not served or not resps or resps[0].status != 200):
             raise Violation("within_limit_rejected", f"head of {size} bytes <= limit {limit}: "
                             f"{[r.status for r in resps]}", **tag)
